@@ -110,6 +110,10 @@ func (f *Fabric) Dialer(ctx context.Context, addr string) (net.Conn, error) {
 	}
 	c, err := l.DialContext(ctx)
 	if err != nil {
+		if errors.Is(ctx.Err(), context.DeadlineExceeded) {
+			// the listener is there; the attempt's deadline passed before the server got to accept
+			noteLoadFault()
+		}
 		return nil, fmt.Errorf("dial %s: %w", addr, err)
 	}
 	return c, nil
